@@ -39,6 +39,7 @@ GEN_SPECS = (
     ("func", None, "make_shape"),  # 15 -> Shape
     ("method", "Stack", "as_list"),  # 16 -> list[int]
     ("func", None, "make_anything"),  # 17 -> Any
+    ("func", None, "make_pair_union"),  # 18 -> tuple[int | str, B]   (only used by C26 obligation nested)
 )
 N_GENS = len(GEN_SPECS)
 
